@@ -21,5 +21,6 @@ HARNESSES += [Q('Q_once_3_r3', ['-DQ_ROUNDS=3'], 'the same with 3 rounds')]; HAR
 ASSUMPTIONS = ['gate words: 0, ~0 (DONE), or a thread id (30 bits, != caller) optionally with the waiters bit; other callers may move the word along the gate protocol (enter from 0, add waiters bit, publish DONE) at most twice',
                'futex wait returns at arbitrary moments (spurious wake-ups included) and the owner may have published DONE meanwhile; at most 3 sleeps',
                'the quiescent-counter variant of dispatch_once is not compiled on this platform']
-LEVEL_TEXT = 'Tier S over all legal gate words with <=2 interfering updates along the gate protocol and <=3 sleeps: the initialiser runs only while the caller owns the gate obtained by a CAS from 0, at most once; DONE is published with release; sleepers are woken (all of them) exactly when the waiters bit was set; non-owners return only on DONE; every sleep is on a value carrying the waiters bit; the inline fast path of dispatch/once.h (compiled as a client would) skips the call exactly for the DONE value the library publishes.'
-LEVEL_NOTE = 'Gate protocol envelope for other threads as documented in lock.h; futex may return spuriously; quiescent-counter variant not compiled on this platform.'
+LEVEL_TEXT = 'Tier S over all legal gate words with <=2 interfering updates along the gate protocol and <=3 sleeps: the initialiser runs only while the caller owns the gate obtained by a CAS from 0, at most once; DONE is published with release; sleepers are woken (all of them) exactly when the waiters bit was set; non-owners return only on DONE; every sleep is on a value carrying the waiters bit; the inline fast path of dispatch/once.h (compiled as a client would) skips the call exactly for the DONE value the library publishes. Tier Q (real interleavings): three callers of the real dispatch_once_f on one predicate, context switch possible before every atomic access, before the initialiser and before every futex call; futex wait compares once on entry and then sleeps until a wake reaches it: the initialiser runs exactly once, no call returns before it has completed, every caller returns (nobody left asleep), the gate ends DONE.'
+LEVEL_NOTE = 'Gate protocol envelope for other threads as documented in lock.h; futex may return spuriously; quiescent-counter variant not compiled on this platform. Tier Q is bounded to 2 (thorough 3) rounds x 3 threads x <=6 visible steps.'
+ASSUMPTIONS = list(ASSUMPTIONS) + ['tier Q: sequentialised model threads over the real code (every translated function resumable; a context switch is possible before every atomic access and every blocking / kernel call); the scheduler runs a bounded number of rounds in which each unfinished thread executes a solver-chosen number of visible steps, followed by a deterministic tail; interleavings needing more context switches than rounds x threads are outside']
